@@ -14,7 +14,7 @@
 From Coq Require Import Ascii String.
 From Coq Require Import NArith ZArith List Bool Lia ZifyN ZifyBool.
 From Imdl Require Import Base.Chunks Model.Bencode Model.Fs Model.Verify Model.CreateVerify Model.EndToEnd
-     Proofs.BencodeProofs Proofs.FsProofs Proofs.VerifyProofs Proofs.CreateVerifyProofs.
+     Proofs.BencodeProofs Proofs.FsProofs Proofs.LoaderProofs Proofs.VerifyProofs Proofs.CreateVerifyProofs.
 From Imdl Require Model.Schema Model.Metainfo Model.Hasher
      Proofs.SchemaProofs Proofs.MetainfoProofs Proofs.InfohashProofs Proofs.HasherProofs.
 Import ListNotations.
@@ -177,12 +177,12 @@ Qed.
 
 Lemma load_encode v : wfb v = true -> load (encode v) = load_value v.
 Proof.
-  intros Hw. unfold load.
+  intros Hw.
   assert (Hd : decode (2 * length (encode v) + 2) (encode v) = Some (v, [])).
   { apply (decode_mono_le (vsize v)).
     - pose proof (InfohashProofs.vsize_bound v). lia.
     - pose proof (encode_decode v Hw []) as E. rewrite app_nil_r in E. exact E. }
-  rewrite Hd. reflexivity.
+  exact (LoaderProofs.strict_load (encode v) v [] Hd).
 Qed.
 
 (* ---------- build, then encode, then load ---------- *)
@@ -429,22 +429,29 @@ Proof.
 Qed.
 
 (** the whole command on the written bytes: with arguments clap accepts and a content root that
-    resolves to where create read, exit status 0 *)
-Theorem end_to_end_cmd o md5 p name csch vsch fs root src sel t cwd cont base input :
+    resolves to where create read, exit status 0 - provided the command's typed loader
+    ([Metainfo::from_input], X4) accepts the rest of the metainfo create wrote (announce, announce-list,
+    nodes, update-url, ... through the url crate [host_disp] / [url_norm]): [extras] is exactly what it
+    demands beyond the info fields proved above ([LoaderProofs.typed_exact]); the content size fits because
+    create's own lengths passed [Metainfo.input_ok] - stated as the hypothesis [size_fits t]. *)
+Theorem end_to_end_cmd host_disp url_norm o md5 p name csch vsch fs root src sel t cwd cont base input :
   resolve fs root = Some src -> Forall plain_path sel -> Forall utf8_path sel -> utf8_ok name = true ->
   create_t H MD5 md5 p name csch src sel = Some t ->
   Metainfo.input_ok (input_of t) = true -> Metainfo.opts_ok o = true -> agrees o md5 t ->
   args_ok cont base input = true ->
   env_resolve cwd (content_root cont base input name) = Some root ->
   exists v, build o (content_of t) = Some v /\
-            verify_cmd H MD5 vsch fs cwd cont base input (encode v) = Some Success.
+            (extras host_disp url_norm (encode v) = true -> size_fits t = true ->
+             verify_cmd H MD5 vsch host_disp url_norm fs cwd cont base input (encode v) = Some Success).
 Proof.
   intros Hr Hpl Hut Hu Hc Hin Ho Ha Hargs Henv.
   destruct (created_bytes_load_back o md5 p name csch src sel t Hc Hu Hpl Hut Hin Ho Ha) as (v & Hb & Hl & Hsh).
-  exists v. split; [exact Hb|].
+  exists v. split; [exact Hb|]. intros Hx Hfit.
+  assert (Hlt : load_typed host_disp url_norm (encode v) = Some t).
+  { apply LoaderProofs.typed_exact. repeat split; assumption. }
   pose proof (create_then_verify H MD5 md5 p name csch vsch fs root src sel t Hr Hpl Hc) as Hv.
   assert (Hname : tname t = name) by (rewrite Hsh; reflexivity).
-  unfold verify_cmd. rewrite Hargs. cbn [negb]. rewrite Hl, Hname, Henv.
+  unfold verify_cmd. rewrite Hargs. cbn [negb]. rewrite Hlt, Hname, Henv.
   unfold verify in Hv. destruct (verifier_new t) as [pl|]; [|discriminate].
   destruct (verify_metainfo H MD5 vsch pl fs root t) as [s|]; [|discriminate].
   inversion Hv as [Hs]. rewrite Hs. reflexivity.
